@@ -93,13 +93,13 @@ def oracle(ck, extended):
         (lh, lw), hsz = pyramid_shapes(H, W, J)
         nb, c = rng.randint(1, 2), rng.randint(1, 2)
         low = gen.float_tensor(ck.nprng, (nb, c, lh, lw)); highs = [gen.float_tensor(ck.nprng, (nb, c, 6, a, b_, 2)) for a, b_ in hsz]
-        oracle_inv(ck, b, s, bt, qt, low, highs, '%s/%s' % (b, s))
+        rt.guard(ck, oracle_inv, ck, b, s, bt, qt, low, highs, '%s/%s' % (b, s))
     for it in range((20 if q else 200) * (3 if extended else 1)):
         bt = OD.int_biort(rng, gen); qt = OD.int_qshift(rng, gen)
         J = rng.randint(1, 3)
         (lh, lw), hsz = pyramid_shapes(rng.randint(2, 22), rng.randint(2, 22), J)
         low = gen.int_tensor(rng, (1, 1, lh, lw), 3); highs = [gen.int_tensor(rng, (1, 1, 6, a, b_, 2), 3) for a, b_ in hsz]
-        oracle_inv(ck, bt, qt, bt, qt, low, highs, 'integer filters')
+        rt.guard(ck, oracle_inv, ck, bt, qt, bt, qt, low, highs, 'integer filters')
     # absent inputs: every non-empty proper subset for J <= 3 on a few sizes, both spellings
     sizes = [(16, 16), (12, 20), (10, 14), (9, 7)] if q else [(16, 16), (12, 20), (10, 14), (9, 7), (32, 24), (6, 6), (22, 18), (5, 12)]
     for (H, W) in sizes:
@@ -111,7 +111,7 @@ def oracle(ck, extended):
             subsets = [set(n for k, n in enumerate(names) if (mask >> k) & 1) for mask in range(1, 2 ** len(names) - 1)]
             for ab in (subsets if not q else rng.sample(subsets, min(len(subsets), 5))):
                 for sp in ('None', 'torch.tensor([])'):
-                    oracle_absent(ck, g, low, highs, ab, sp, H, W)
+                    rt.guard(ck, oracle_absent, ck, g, low, highs, ab, sp, H, W)
 
 
 def run(ck):
